@@ -274,6 +274,7 @@ pub struct Stats {
     pub udp_reordered: u64,
     pub udp_no_socket: u64,
     pub udp_oversize: u64,
+    pub udp_wrong_family: u64,
     pub udp_partitioned: u64,
     pub faults_fired: BTreeMap<&'static str, u64>,
 }
